@@ -176,10 +176,6 @@ fn differential_case(t: &mut Tape, _obs: &mut Obs) -> R {
     Ok(())
 }
 
-fn assert_send_sync<T: Send + Sync>() -> u64 {
-    1
-}
-
 fn static_claims(obs: &mut Obs) -> R {
     let repo = std::env::var("VERIF_REPO").unwrap_or_else(|_| "/repo".into());
     let lib = std::fs::read_to_string(format!("{}/src/lib.rs", repo)).map_err(|e| Fail { sig: "harness:read".into(), msg: format!("{}", e) })?;
@@ -202,54 +198,26 @@ fn static_claims(obs: &mut Obs) -> R {
         obs.nontrivial(fnv64(f.to_string_lossy().as_bytes()));
     }
     obs.sample(json!({"files_scanned": files.len()}));
-    // compile-time: every public value type is Send + Sync
-    let n = assert_send_sync::<TlsPlaintext>()
-        + assert_send_sync::<TlsEncrypted>()
-        + assert_send_sync::<TlsRawRecord>()
-        + assert_send_sync::<TlsRecordHeader>()
-        + assert_send_sync::<TlsMessage>()
-        + assert_send_sync::<TlsMessageHandshake>()
-        + assert_send_sync::<TlsClientHelloContents>()
-        + assert_send_sync::<TlsServerHelloContents>()
-        + assert_send_sync::<TlsServerHelloV13Draft18Contents>()
-        + assert_send_sync::<TlsHelloRetryRequestContents>()
-        + assert_send_sync::<TlsNewSessionTicketContent>()
-        + assert_send_sync::<TlsCertificateContents>()
-        + assert_send_sync::<TlsCertificateRequestContents>()
-        + assert_send_sync::<TlsServerKeyExchangeContents>()
-        + assert_send_sync::<TlsClientKeyExchangeContents>()
-        + assert_send_sync::<TlsCertificateStatusContents>()
-        + assert_send_sync::<TlsNextProtocolContent>()
-        + assert_send_sync::<TlsMessageAlert>()
-        + assert_send_sync::<TlsMessageApplicationData>()
-        + assert_send_sync::<TlsMessageHeartbeat>()
-        + assert_send_sync::<TlsExtension>()
-        + assert_send_sync::<KeyShareEntry>()
-        + assert_send_sync::<OidFilter>()
-        + assert_send_sync::<DTLSPlaintext>()
-        + assert_send_sync::<DTLSRawRecord>()
-        + assert_send_sync::<DTLSRecordHeader>()
-        + assert_send_sync::<DTLSMessage>()
-        + assert_send_sync::<DTLSMessageHandshake>()
-        + assert_send_sync::<DTLSClientHello>()
-        + assert_send_sync::<DTLSHelloVerifyRequest>()
-        + assert_send_sync::<ServerDHParams>()
-        + assert_send_sync::<ServerECDHParams>()
-        + assert_send_sync::<ECParameters>()
-        + assert_send_sync::<ECPoint>()
-        + assert_send_sync::<DigitallySigned>()
-        + assert_send_sync::<SignedCertificateTimestamp>()
-        + assert_send_sync::<TlsRecordsParser>()
-        + assert_send_sync::<TlsState>()
-        + assert_send_sync::<StateChangeError>()
-        + assert_send_sync::<TlsCipherSuite>()
-        + assert_send_sync::<&'static TlsCipherSuite>()
-        + assert_send_sync::<TlsVersion>()
-        + assert_send_sync::<TlsCipherSuiteID>()
-        + assert_send_sync::<NamedGroup>()
-        + assert_send_sync::<SignatureScheme>();
+    // every public value type is Send + Sync: a probe package holding one `assert_send_sync::<T>()` per type is type-checked now
+    obs.eval();
+    let out = Command::new("cargo")
+        .args(["check", "--release", "-q"])
+        .current_dir(harness_dir().join("sendsync"))
+        .env("CARGO_TARGET_DIR", harness_dir().join("target-cfg-sendsync"))
+        .env("CARGO_NET_OFFLINE", "true")
+        .output()
+        .map_err(|e| Fail { sig: "harness:cargo".into(), msg: format!("{}", e) })?;
+    let err = String::from_utf8_lossy(&out.stderr).to_string();
+    if !out.status.success() {
+        let relevant: Vec<&str> = err.lines().filter(|l| l.contains("cannot be sent between threads") || l.contains("cannot be shared between threads") || l.starts_with("error")).take(6).collect();
+        if err.contains("cannot be sent between threads safely") || err.contains("cannot be shared between threads safely") {
+            return fail("C18:static:not-send-sync", format!("a public value type is not Send + Sync: {}", relevant.join(" | ")));
+        }
+        return fail("harness:sendsync-probe", format!("the Send/Sync probe does not compile for another reason (API change?): {}", relevant.join(" | ")));
+    }
+    let n = std::fs::read_to_string(harness_dir().join("sendsync/src/lib.rs")).map(|s| s.matches("assert_send_sync::<").count() as u64).unwrap_or(0);
     obs.evals_add(n);
-    obs.sample(json!({"send_sync_types_asserted_at_compile_time": n}));
+    obs.sample(json!({"send_sync_types_type_checked": n}));
     // and the registry is really shared: read it from several threads
     let ids: Vec<u16> = (0..4u16).map(|i| 0x1301 + i).collect();
     let names: Vec<Option<&'static str>> = std::thread::scope(|s| ids.iter().map(|id| s.spawn(move || TlsCipherSuite::from_id(*id).map(|c| c.name))).collect::<Vec<_>>().into_iter().map(|h| h.join().unwrap()).collect());
